@@ -377,7 +377,8 @@ def run(F, R, tier):
         g = F.fn(reg.get(fn, ""))
         return {c.get("callee") for c in H.walk(H.body_of(g)) if c.get("k") in ("call", "mcall") and c.get("callee")} if g else set()
     R.ob("representation", "len(Str) is byte-based (String::len)", "std::string::String::len" in callees("len"), "")
-    R.ob("representation", "encode_utf8 emits the string's bytes (String::as_bytes)", "std::string::String::as_bytes" in callees("encode_utf8"), "")
+    BYTES = {"std::string::String::as_bytes", "core::str::<impl str>::as_bytes", "core::str::<impl str>::bytes", "std::string::String::into_bytes"}
+    R.ob("representation", "encode_utf8 emits the string's bytes (as_bytes / bytes / into_bytes)", bool(BYTES & callees("encode_utf8")), str(sorted(BYTES & callees("encode_utf8"))))
     R.ob("representation", "chars splits by char (str::chars)", "core::str::<impl str>::chars" in callees("chars"), "")
     R.ob("representation", "join appends chars (String::push)", "std::string::String::push" in callees("join"), "")
     # int(str(n)) == n and float(str(x)) == x need the text to be parsed in the number's own type: a detour through
@@ -388,3 +389,22 @@ def run(F, R, tier):
             ps = [c.get("ty", "") for c in H.walk(H.body_of(g)) if c.get("k") == "mcall" and (c.get("callee") or "").endswith("::parse")]
             R.ob("representation", "%s(Str) parses the text as %s" % (fn, ty), len(ps) == 1 and ps[0].startswith("std::result::Result<%s," % ty), str(ps), F.loc(g))
     R.ob("representation", "decode_utf8 uses String::from_utf8", "std::string::String::from_utf8" in callees("decode_utf8"), "")
+    # char(x) / byte(x) of a float: one saturating cast from f64 to the code-unit type (u32 for a code point, u8 for a byte).
+    # A detour through a wider integer (`f as i64 as u32`) wraps modulo 2^32 / 2^8 where the single cast saturates, so
+    # out-of-range floats stop giving the documented null / 0 and in-range results appear for them.
+    from .lib import mir as M
+    for fn, unit in (("char", "u32"), ("byte", "u32")):
+        g = F.fn(reg.get(fn, ""))
+        if not R.anchor("builtin %s" % fn, g and g.get("mir")):
+            continue
+        B = M.Body(g)
+        casts = []
+        for b_ in B.blocks:
+            if b_.get("cleanup"):
+                continue
+            for st in b_["stmts"]:
+                rv = st.get("rv") or {}
+                if st.get("k") == "assign" and rv.get("k") == "cast" and rv.get("ck") == "FloatToInt":
+                    casts.append(rv.get("ty"))
+        R.ob("representation", "%s(Float) converts with a single cast to %s" % (fn, unit), bool(casts) and set(casts) == {unit},
+             "float-to-integer casts in builtin_%s: %s" % (fn, casts), F.loc(g))
